@@ -171,6 +171,7 @@ func c13Run(r *tr.Run, cs c13Case) {
 	herr := c13Err(cs.HRes)
 	pubErr := stderrors.New("poison publisher down")
 	pp := scripted.NewPub("poisonpub")
+	forceFail := false
 	pp.Fn = func(n int, topic string, msgs []*message.Message) error {
 		for _, m := range msgs {
 			r.Emit("pcall", "topic", topic, "uuid", m.UUID, "payload", string(m.Payload), "meta", map[string]string(m.Metadata))
@@ -178,7 +179,7 @@ func c13Run(r *tr.Run, cs c13Case) {
 		if len(msgs) != 1 {
 			r.Emit("pcall-batch", "n", len(msgs))
 		}
-		if !cs.PubOK {
+		if !cs.PubOK || forceFail {
 			return pubErr
 		}
 		return nil
@@ -252,6 +253,16 @@ func c13Run(r *tr.Run, cs c13Case) {
 	if !cs.Router {
 		var rerr error
 		var routs []*message.Message
+		if herr != nil && cs.Meta == "some" && !cs.CtxEnd {
+			// the SAME message object has been through this middleware before (not part of the case: not recorded) and the poison
+			// publisher refused it then: a redelivery of the object, or a Retry around the poison queue. The pass that is recorded
+			// is decided on its own: the filter is asked again, the publisher is offered the message again
+			r.Quiet(true)
+			forceFail = true
+			_, _ = Guarded(func() { _, _ = mw(handler)(msg) })
+			forceFail = false
+			r.Quiet(false)
+		}
 		p, v := Guarded(func() { routs, rerr = mw(handler)(msg) })
 		if p {
 			r.Emit("panic", "val", v)
